@@ -9,9 +9,11 @@ import (
 	"math"
 	"math/big"
 	"os"
+	"regexp"
 	"strconv"
 	"strings"
 	"testing"
+	"unicode"
 
 	"golang.org/x/perf/benchfmt"
 	"golang.org/x/perf/benchmath"
@@ -169,6 +171,47 @@ func c04CheckUnit(e *c04Env, unit string, values []float64) (string, string) {
 					writtenHere := v.OrigUnit == unit
 					if mW.Test(i) != writtenHere || mN.Test(i) == writtenHere || !mB.Test(i) {
 						return "", fmt.Sprintf("text %q, measurement %d (%v %s, written %q): filter on written unit=%v (want %v), negated=%v, on base unit=%v (want true)", text, i, v.Value, v.Unit, v.OrigUnit, mW.Test(i), writtenHere, mN.Test(i), mB.Test(i))
+					}
+				}
+			}
+		}
+	}
+	// ONE term that can name several units (a regexp): each measurement is judged on its own, by its base or its
+	// written unit, whatever the term matched elsewhere on the line.
+	if base != unit {
+		loose := func(u string) string {
+			var b strings.Builder
+			for _, r := range u {
+				if r < 0x80 && (unicode.IsLetter(r) || unicode.IsDigit(r)) {
+					b.WriteRune(r)
+				} else {
+					b.WriteByte('.')
+				}
+			}
+			return b.String()
+		}
+		for _, pat := range []string{"^(" + loose(unit) + "|zz.op)$", "^(zz.op|" + loose(unit) + ")$", "^(" + loose(base) + "|zz.op)$"} {
+			re, err := regexp.Compile(pat)
+			fR, ferr := NewFilter(".unit:/" + pat + "/")
+			if err != nil || ferr != nil {
+				continue
+			}
+			for _, text := range []string{
+				fmt.Sprintf("BenchmarkX 1 1 %s 2 zz/op 3 %s\n", unit, base),
+				fmt.Sprintf("BenchmarkX 1 2 zz/op 1 %s\nBenchmarkX 1 3 %s 2 zz/op 1 %s\n", unit, base, unit),
+			} {
+				e.rd.Reset(strings.NewReader(text), "regexp")
+				for e.rd.Scan() {
+					res, ok := e.rd.Result().(*benchfmt.Result)
+					if !ok {
+						return "", fmt.Sprintf("text %q: unexpected record", text)
+					}
+					m, _ := fR.Match(res)
+					for i, v := range res.Values {
+						want := re.MatchString(v.Unit) || (v.OrigUnit != "" && re.MatchString(v.OrigUnit))
+						if m.Test(i) != want {
+							return "", fmt.Sprintf("text %q, filter .unit:/%s/, measurement %d (%v %s, written %q): selected=%v want %v", text, pat, i, v.Value, v.Unit, v.OrigUnit, m.Test(i), want)
+						}
 					}
 				}
 			}
